@@ -509,10 +509,26 @@ def run_chain(o, ad1, ad2, r1, r2=None, order=None, stats=None):
 # --------------------------------------------------------------------------
 # filters and routing
 # --------------------------------------------------------------------------
+class Ambiguous(Exception):
+    """A floating-point quantity lies within rounding distance of its threshold: the documented
+    criterion does not decide the case, so no verdict is given for it."""
+
+
 def n_fraction_exceeds(seq, cutoff):
+    """More N's than --max-n; a value below 1 is a fraction of the read length.  The fraction is taken as the
+    decimal number the user wrote (repr of the generated value is what goes onto the command line)."""
+    from fractions import Fraction
+
     nc = seq.lower().count("n")
     if cutoff < 1:
-        return len(seq) > 0 and nc / len(seq) > cutoff
+        if len(seq) == 0:
+            return False
+        have, want = Fraction(nc, len(seq)), Fraction(repr(float(cutoff)))
+        if have == want:
+            return False
+        if abs(have - want) < Fraction(1, 10**12):
+            raise Ambiguous()
+        return have > want
     return nc > cutoff
 
 
@@ -523,11 +539,6 @@ def casava_filtered(name):
 
 def expected_errors(q):
     return c14.ref_ee(q)
-
-
-class Ambiguous(Exception):
-    """A floating-point quantity lies within rounding distance of its threshold: the documented
-    criterion does not decide the case, so no verdict is given for it."""
 
 
 def exceeds(value, threshold, exact=False):
